@@ -44,6 +44,12 @@ NOTES = {  # seed -> (detected_by, note) overriding / complementing the logged r
  'C32-r2-2': ('C32 (race report Variables.Unset vs set)', 'missed at first: no program unset a variable while another job assigned one; caught by the new object-level part (every pair of operations of every shared table: `Set || Unset` on one table)'),
  'C19-r2-1': ('C19 (caller-not-blocked)', 'the check as it stood would have missed it (no operation whose pipe constructor fails — the round-1 limit C19-2 — and a child murex that never returns was only reported as inconclusive); caught after the operation `pipe a --file /no/such/dir/x` joined the child sequences and a child whose every thread sleeps without consuming CPU for 25 s is declared blocked'),
  'C23-r2-2': ('C23 (binding)', 'missed at first: every argument of the alphabet was already in canonical form and only the stored value was compared, not the text the variable expands to; caught after the arguments 007 and 1e2 and the expansion text joined the comparison'),
+ 'C28-r4-1': ('C28 (fid-unique)', 'the check as it stood would have missed it: the atomic add was split into an atomic load and an atomic store in consecutive statements, with no lock or channel between them, and atomic operations were not scheduling points (nor is there anything for the race detector); caught, with one preemption, after mkoverlay started to put a scheduling point before every statement that performs a sync/atomic operation'),
+ 'C29-r4-1': ('C29 (reload, interleaving part)', 'outside the check as it stood (sessions were strictly sequential): two live sessions whose Stat/WriteAt windows overlap. Caught after C29 gained an E1 part: concurrent History.Write calls of 2-3 live sessions under the controlled scheduler with a scheduling point before every statement of Write'),
+ 'C29-r4-2': ('C29 (reload, live sessions)', 'outside the check as it stood (a session never outlived another one crash): caught after the live-session cases were added (A records, B crashes at every byte of its write, A records again)'),
+ 'C27-r4-2': ('C32 (race report jobs.Add vs jobs.Add); not by C27', 'Add under RLock: two Adds inside the read lock never interleave under a cooperative scheduler (no scheduling point inside the section), so C27 explores nothing new; the race detector sees the unsynchronised append once the job table joined the object-level pairs of C32'),
+ 'C02-r4-2': ('C02 (declared-type-returned)', 'missed at first: the oracle allowed a reader to get * after ForceClose whenever the declaration had not completed before the reader BEGAN; the change makes a reader that was already waiting return * although the type was declared before the ForceClose. Caught after the oracle was tightened from the code-independent reading of the statement: an aborting reader looks at the type after it has seen the cancellation, so * is wrong when a valid declaration completed before the ForceClose began'),
+ 'C32-r4-1': ('C32 (race report Config.GetFileRef vs Set)', 'missed at first: the config pairs ran on a function-scoped Config without any local override, so the branch that serves a scoped value was never taken; caught after the driver was given a non-global option with a local override (and a global one) of its own'),
  'C26-r2-1': ('C26 (pipe-closed-once)', 'missed at first (the registry-level model cannot see a pipe being closed twice); caught after a counted pipe type and the clause "the registry closes a pipe object at most once" were added'),
  'C03-r2-1': ('C03 (sequential-meaning)', 'missed at first: no program used the method form of if, and the differential oracle alone does not see a change that makes every explored schedule wrong in the same way; caught after the program and literal expectations were added'),
  'C03-r2-2': ('C03 (sequential-meaning)', 'missed at first: no program had a downstream stage that ignores its stdin followed by a statement writing to the same stream; caught after the program and its literal expectation were added'),
